@@ -101,6 +101,12 @@ def doc_cases(rng, n, prefix, delims=None, kinds=None, p_unwrap=0.3, p_mut=0.15,
                 shift = rng.choice([0, 0, G.offset_minutes(cfg.offset) * 60])
                 return 'to="' + G.render_to(base + shift) + '"'
             s = re.sub(r'to="2[01]00-01-01 00:00:00"', near, s)
+        if rng.random() < 0.08:
+            # white space inside the quotes, in front of the year or behind the seconds: read as the same instant
+            def padded(mo):
+                v = mo.group(1)
+                return 'to="' + rng.choice([v + " ", v + "\t", " " + v, v + "  ", " " + v + " ", v]) + '"'
+            s = re.sub(r'to="(\d{4}-\d\d-\d\d \d\d:\d\d:\d\d)"', padded, s)
         mutated = rng.random() < p_mut
         if mutated:
             s = G.mutate(rng, s, ds, de)
@@ -1219,6 +1225,18 @@ def oracle_c06(line, m, impl, model):
     return oracle_c03(line, m, impl, model) or oracle_c02(line, m, impl, model)
 
 
+def expired_spelling(rng, cfg):
+    """an expired `to` attribute in one of the spellings the date parser reads as the same instant (white space
+    behind the seconds or in front of the year inside the quotes, either quote, the current instant itself)"""
+    if rng.random() < 0.75:
+        return G.EXPIRED
+    v = rng.choice(["2000-01-01 00:00:00", "1999-12-31 23:59:59", G.render_to(cfg.now + G.offset_minutes(cfg.offset) * 60)
+                    if isinstance(cfg.now, int) else "2000-01-01 00:00:00"])
+    v = rng.choice([v + " ", v + "\t", " " + v, v + "  ", v, " " + v + " "])
+    q = rng.choice(['"', "'"])
+    return "to=" + q + v + q
+
+
 def block_doc(rng, ds, de, cfg, unit, first_line=False):
     """block documents with known expected output: every tag alone on its line, default strategy,
     blank-line counts a (after) and b (before) chosen per block"""
@@ -1240,7 +1258,7 @@ def block_doc(rng, ds, de, cfg, unit, first_line=False):
         tind = rng.choice([ind, ind + unit])
         kind = rng.choice(["ready_tl", "ready_rm"]) if cfg.targets else "ready_tl"
         name = cfg.tl if kind == "ready_tl" else cfg.rm
-        at = G.EXPIRED if kind == "ready_tl" else f'name="{cfg.targets[0]}"'
+        at = expired_spelling(rng, cfg) if kind == "ready_tl" else f'name="{cfg.targets[0]}"'
         lines.append(tind + ds + name + " " + at + de)
         for _ in range(rng.randint(0, 3)):
             lines.append(rng.choice([code(tind + unit), "", tind]))
@@ -1512,7 +1530,8 @@ def occurrences(s, p):
 
 
 C18_TAGNAMES = G.TAGNAMES + [("time-limited", "limited"), ("marker", "removal-marker"), ("x-期限", "期限"), ("tl", "tl2"),
-                             ("ab", "a"), ("a", "a-b"), ("t", "tt")]
+                             ("ab", "a"), ("a", "a-b"), ("t", "tt"), ("Übergang", "ÉTIQUETTE"), ("ΤΕΛΟΣ", "Ärmel"), ("TL", "Rm"),
+                             ("ǅ", "İ")]
 
 
 def render_abs(s_abs, ds, de, tl, rm):
